@@ -58,6 +58,31 @@ func twin(name, canary, sp string) cat.Program {
 			"rows": strs("New York", "New  York", "x")}}
 }
 
+// retypeTwin: one template text, the values of n, sv, l and u differently typed per program.
+func retypeTwin(name, canary string, nv, sv, lv, uv vals.V) cat.Program {
+	page := `<p v-if="n == 1">one</p><p v-else-if="n != 1 && n != '1'">other</p><p v-else>text-one</p><i v-show="n == 1" style="a:1">shown</i>` +
+		`<span :class="{ on: u.Flag == true, named: u.Name == 'ann', one: n == 1 }" :style="{ width: n == 1 ? '1px' : '2px', color: sv == 'x' ? 'red' : 'blue' }">{{ u.Name }}</span>` +
+		`<b>{{ n == 1 }}|{{ n != 1 }}|{{ u.Name == 'ann' ? 'A' : 'B' }}|{{ sv == 'x' }}|{{ sv == 7 }}|{{ u.Flag == true ? 'f1' : 'f0' }}|{{ len(l) > 1 }}|{{ n == sv }}</b>` +
+		`<a :data-n="n == 1" :data-s="sv == 'x' ? 'sx' : 'sy'" :data-u="u.Flag == true" :title="who">t</a>` +
+		`<ul><li v-for="e in l" :data-e="e == n"><em v-if="e == n">eq</em><em v-else-if="e == 2">two</em><em v-else>ne</em><u v-show="e == 1">one</u></li></ul>` + end
+	return cat.Program{Name: name, Canary: canary, Feat: []string{"retype-twin", "expr"},
+		Files: map[string]string{"page.vuego": page},
+		Data:  map[string]vals.V{"who": s(canary), "n": nv, "sv": sv, "l": lv, "u": uv}}
+}
+
+// numTwin: arithmetic and ordering on numbers of one Go type per program.
+func numTwin(name, canary, kind string) cat.Program {
+	num := func(x string) vals.V { return vals.Num(kind, x) }
+	page := `<p v-if="n + 1 == 3">three</p><p v-else-if="n > 2">big</p><p v-else>small</p><i v-show="n * 2 > 3">shown</i>` +
+		`<span :class="{ pos: n > 0, two: n == 2, sum: n + k == 5 }" :style="{ width: n + 1, height: n * k }">{{ n }}</span>` +
+		`<b>{{ n + 1 }}|{{ n * 2 }}|{{ n - 1 }}|{{ n > 1 }}|{{ n >= 2 && k <= 3 }}|{{ n + k }}|{{ n == 2 ? 'two' : 'not' }}|{{ n < k }}</b>` +
+		`<a :data-a="n + 1" :data-b="n * k" :data-c="n > k" :title="who">t</a>` +
+		`<ul><li v-for="e in l" :data-e="e + n"><em v-if="e > n">gt</em><em v-else-if="e == n">eq</em><em v-else>lt</em>{{ e * 2 }}</li></ul>` + end
+	return cat.Program{Name: name, Canary: canary, Feat: []string{"retype-twin", "expr", "arithmetic"},
+		Files: map[string]string{"page.vuego": page},
+		Data:  map[string]vals.V{"who": s(canary), "n": num("2"), "k": num("3"), "l": anys(num("1"), num("2"), num("3"))}}
+}
+
 func local() []cat.Program {
 	ps := []cat.Program{
 		{Name: "x-multi-bound", Canary: "xmbWHO", Feat: []string{hazard, "multi-bound"},
@@ -219,6 +244,16 @@ func local() []cat.Program {
 			},
 			Data: map[string]vals.V{"who": s("xcrWHO")}},
 
+		// retype twins: DIFFERENT files with the SAME template text (so the same expression texts)
+		// whose data gives the same names differently typed values; on the shared engine they meet
+		// in both orders. Only expressions that are valid for every typing are used here.
+		retypeTwin("x-retype-int", "xriWHO", n(1), s("x"), vals.V{K: "[]int", L: []vals.V{n(1), n(2)}}, vals.V{K: "*rec", M: map[string]vals.V{"Name": s("ann"), "Flag": b(true)}}),
+		retypeTwin("x-retype-float", "xrfWHO", vals.Num("float64", "1"), s("x"), anys(vals.Num("float64", "1"), vals.Num("float64", "2")), m(map[string]vals.V{"Name": s("ann"), "Flag": b(true)})),
+		retypeTwin("x-retype-str", "xrsWHO", s("1"), n(7), strs("1", "2"), vals.V{K: "mapss", M: map[string]vals.V{"Name": s("ann"), "Flag": s("true")}}),
+		retypeTwin("x-retype-misc", "xrmWHO", b(true), vals.Nil(), anys(b(true), vals.Nil(), s("1")), vals.V{K: "rec", M: map[string]vals.V{"Name": s("bob"), "Flag": b(false)}}),
+		// numeric retyping with arithmetic (valid for every numeric type)
+		numTwin("x-num-int", "xniWHO", "int"), numTwin("x-num-float", "xnfWHO", "float64"), numTwin("x-num-int64", "xnlWHO", "int64"), numTwin("x-num-uint8", "xnuWHO", "uint8"),
+
 		// near-twin programs: the same template text except for the number of blanks INSIDE string
 		// literals of expressions ({{ }}, v-if, v-show, :attr, :class / :style objects). On one engine
 		// (shared histories) they meet in both orders; anything that identifies expressions more
@@ -367,15 +402,90 @@ func applicable(p cat.Program, entry string) bool {
 // data at all (nil is passed to Fill / Render / RenderFragment / RenderNodes): the paths on
 // which an engine might hand one of its own maps (cached front-matter, config data) to the
 // render as root scope.
+//
+// Variants 5..7 RETYPE the values and keep (the text of) their content: the same expression
+// text then meets a differently typed operand on the same engine.
+//
+//	5 "as decoded from JSON": int -> float64, []string / []int -> []any, map[string]string and
+//	  structs -> map[string]any
+//	6 "stringly": int, float and bool -> their decimal / true|false text
+//	7 "swapped": string -> nil, int -> bool (non-zero), bool -> int (1 / 0)
 const (
-	nVariants = 5
+	nVariants = 8
 	vEmpty    = 3
 	vNil      = 4
+	vJSON     = 5
+	vStringly = 6
+	vSwapped  = 7
 )
+
+var retypeVariants = []int{vJSON, vStringly, vSwapped}
+
+// retype implements variants 5..7.
+func retype(v vals.V, k int) vals.V {
+	out := vals.V{K: v.K, S: v.S}
+	switch k {
+	case vJSON:
+		switch v.K {
+		case "int":
+			out.K = "float64"
+		case "[]string", "[]int", "[]rec":
+			out.K = "[]any"
+		case "mapss", "rec", "*rec":
+			out.K = "map"
+		}
+	case vStringly:
+		switch v.K {
+		case "int", "float64", "bool":
+			out.K = "string"
+		case "[]string", "[]int":
+			out.K = "[]any"
+		case "rec", "*rec", "[]rec":
+			return v // struct fields keep their Go types
+		}
+	case vSwapped:
+		switch v.K {
+		case "string":
+			return vals.Nil()
+		case "int":
+			return vals.Bool(v.S != "0")
+		case "bool":
+			if v.S == "true" {
+				return vals.Int(1)
+			}
+			return vals.Int(0)
+		case "[]string", "[]int":
+			out.K = "[]any"
+		case "mapss":
+			out.K = "map"
+		case "rec", "*rec", "[]rec":
+			return v
+		}
+	}
+	if v.L != nil {
+		out.L = make([]vals.V, len(v.L))
+		for i, e := range v.L {
+			if e.K == "" { // element of a typed slice: described by S only
+				e.K = map[string]string{"[]string": "string", "[]int": "int"}[v.K]
+			}
+			out.L[i] = retype(e, k)
+		}
+	}
+	if v.M != nil {
+		out.M = make(map[string]vals.V, len(v.M))
+		for key, e := range v.M {
+			out.M[key] = retype(e, k)
+		}
+	}
+	return out
+}
 
 func variant(v vals.V, k int) vals.V {
 	if k == 0 {
 		return v
+	}
+	if k >= vJSON {
+		return retype(v, k)
 	}
 	out := vals.V{K: v.K, S: v.S}
 	switch v.K {
